@@ -2,5 +2,7 @@ import Helm.Props.C09
 #print axioms Helm.Props.C09.each_revision_has_one_creator
 #print axioms Helm.Props.C09.losers_touch_nothing
 #print axioms Helm.Props.C09.mutation_only_after_own_record
+#print axioms Helm.Props.C09.history_wellformed_at_quiescence
+#print axioms Helm.Props.C09.at_most_one_operation_in_flight
 #print axioms Helm.Props.C09.two_operations_all_interleavings
 #print axioms Helm.Props.C09.three_operations_two_preemptions
